@@ -179,6 +179,16 @@ Step choose_step(HState const &h, Rng &rng, HOpts const &o){
             if (fam == fam_fourier) s.depth = std::min(s.depth, (s.type == type_tensor || s.type == type_level) ? 4 : 12);
             if (pass_limits) s.limits = gen_limits(rng, dims, cur_depth + 1);
             s.raw_overload = rng.coin(0.3);
+            if (fam == fam_fourier && s.depth > 4){
+                // Fourier rules have 3^l points per level and curved / anisotropic selections are hard to bound a priori (one update reached 43011
+                // points): the update is tried on a copy and the depth is lowered until the result stays within a few times the point cap
+                while (s.depth > 4){
+                    TasmanianSparseGrid trial = g;
+                    try{ trial.updateGrid(s.depth, s.type, s.aw, s.limits); }catch(std::exception &){ break; } // the real step reports it
+                    if (trial.getNumPoints() <= 6 * o.max_points) break;
+                    s.depth--;
+                }
+            }
             break;
         case Step::cand_load:
             s.type = rng.pick(depth_types());
